@@ -68,4 +68,12 @@ require (
 	gorm.io/gorm v1.25.5 // indirect
 )
 
+require (
+	github.com/grpc-ecosystem/grpc-gateway/v2 v2.19.0 // indirect
+	go.opentelemetry.io/proto/otlp v1.1.0 // indirect
+	google.golang.org/genproto/googleapis/api v0.0.0-20240116215550-a9fa1716bcac // indirect
+	google.golang.org/genproto/googleapis/rpc v0.0.0-20240116215550-a9fa1716bcac // indirect
+	google.golang.org/grpc v1.61.1 // indirect
+)
+
 replace github.com/siglens/siglens => /repo
